@@ -147,24 +147,34 @@ Proof.
   - intro H. exists x. split; [exact H|apply String.eqb_refl].
 Qed.
 
+Lemma mutation_methods_are_write : mutation_methods = write_methods.
+Proof. vm_compute. reflexivity. Qed.
+
+(* the only keyword served before the gate is the content-addressed blob store *)
+Lemma shortcuts_exact : map fst instance_shortcuts = ["blobstore"].
+Proof. vm_compute. reflexivity. Qed.
+
+Lemma not_shortcut kw : ~ In kw ["blobstore"] -> is_shortcut kw = false.
+Proof.
+  intro H. unfold is_shortcut. rewrite shortcuts_exact.
+  destruct (smem kw ["blobstore"]) eqn:E; [|reflexivity]. exfalso. apply H. apply smem_In. exact E.
+Qed.
+
 (* for EVERY keyword string, not only those of the table: a POST/PUT/DELETE on a locked node that
    is not one of the audited read-only triples and not a keyword served before the gate is refused *)
 Theorem gate_any_keyword : forall pkg kw meth,
-  In meth mutation_methods -> is_shortcut kw = false ->
+  In meth write_methods -> ~ In kw ["blobstore"] ->
   ~ In (pkg, kw, meth) proved_readonly ->
   gate mode_default false true true (RInst pkg kw) meth = Refuse.
 Proof.
   intros pkg kw meth Hm Hs Hnot. rewrite gate_inst_closed. unfold gate_inst_spec. cbn [m_readonly m_fullwrite mode_default negb andb].
-  rewrite Hs.
+  rewrite (not_shortcut kw Hs).
   assert (M : is_mutation pkg kw meth = true).
-  { unfold is_mutation. apply andb_true_iff. split; [apply smem_In; exact Hm|].
+  { unfold is_mutation. apply andb_true_iff. split; [apply smem_In; rewrite mutation_methods_are_write; exact Hm|].
     apply negb_true_iff. destruct (override_hit pkg kw meth) eqn:O; [|reflexivity].
     exfalso. apply Hnot. apply overrides_are_audited. apply override_hit_In. exact O. }
   rewrite M. reflexivity.
 Qed.
-
-Lemma mutation_methods_are_write : mutation_methods = write_methods.
-Proof. vm_compute. reflexivity. Qed.
 
 (* ---- branching stays allowed; the other node-level mutations are refused ---- *)
 
@@ -172,25 +182,36 @@ Theorem branching_allowed : forall a, In a ["branch"; "newversion"; "tag"] ->
   gate mode_default false true true (RNode a) "post" = Allow.
 Proof. intros a [<-|[<-|[<-|[]]]]; vm_compute; reflexivity. Qed.
 
+(* the branch whitelist of the source is exactly the three version-creating actions *)
+Definition spec_branch_actions : list string := ["branch"; "newversion"; "tag"].
+Lemma branch_whitelist_exact : node_branch_actions = spec_branch_actions.
+Proof. vm_compute. reflexivity. Qed.
+
 Theorem node_routes_sound : forall meth a, In (meth, a) node_actions ->
-  ~ In meth ["get"; "head"] ->
-  gate mode_default false true true (RNode a) meth = if smem a node_branch_actions then Allow else Refuse.
+  ~ In meth ["get"; "head"] -> ~ In a spec_branch_actions ->
+  gate mode_default false true true (RNode a) meth = Refuse.
 Proof.
-  intros meth a Hin Hnr. pose proof node_sound as N. unfold node_sound_b in N.
+  intros meth a Hin Hnr Hnb. pose proof node_sound as N. unfold node_sound_b in N.
   rewrite forallb_forall in N. specialize (N _ Hin). cbn [fst snd] in N.
   destruct (smem meth ["get"; "head"]) eqn:R.
   - exfalso. apply Hnr. apply smem_In. exact R.
-  - destruct (smem a node_branch_actions); apply verdict_eqb_eq; exact N.
+  - destruct (smem a node_branch_actions) eqn:B.
+    + exfalso. apply Hnb. rewrite <- branch_whitelist_exact. apply smem_In. exact B.
+    + apply verdict_eqb_eq. exact N.
 Qed.
 
 (* for EVERY action string: a non-GET/HEAD request to a locked node that is not a branching
    action is refused by nodeSelector before any handler is looked up *)
 Theorem node_any_action : forall a meth,
-  not_read meth = true -> smem a node_branch_actions = false ->
+  not_read meth = true -> ~ In a spec_branch_actions ->
   gate mode_default false true true (RNode a) meth = Refuse.
 Proof.
-  intros a meth Hr Hb. rewrite gate_node_closed. unfold gate_node_spec.
-  cbn [m_readonly m_fullwrite mode_default negb andb]. rewrite Hb, Hr. reflexivity.
+  intros a meth Hr Hnb. rewrite gate_node_closed. unfold gate_node_spec.
+  cbn [m_readonly m_fullwrite mode_default negb andb].
+  assert (Hb : smem a node_branch_actions = false).
+  { destruct (smem a node_branch_actions) eqn:B; [|reflexivity].
+    exfalso. apply Hnb. rewrite <- branch_whitelist_exact. apply smem_In. exact B. }
+  rewrite Hb, Hr. reflexivity.
 Qed.
 
 (* ---- the mode matrix ---- *)
